@@ -41,7 +41,7 @@ def run_task(task):
 def shifts(tier): return (-1.0, 5.25) if tier == 'quick' else (0.25, 1.0, 5.0, 64.0, -1.0, -3.5)
 # far-apart powers of two: an absolute time constant anywhere in the arithmetic (guard band, rounding, clipping) breaks scale invariance
 # only once the time unit is much smaller or larger than the constant; every scaling by 2^k is exact in float32
-def scales(tier): return (2.0 ** -12, 2.0 ** 10) if tier == 'quick' else (0.25, 2.0, 8.0, 2.0 ** -12, 2.0 ** -24, 2.0 ** 14)
+def scales(tier): return (2.0 ** -24, 2.0 ** 10) if tier == 'quick' else (0.25, 2.0, 8.0, 2.0 ** -12, 2.0 ** -24, 2.0 ** 14)
 
 
 def kernel_scaled(K, lut, a, waves, dn, cap, shift=0.0, scale=1.0):
